@@ -160,8 +160,124 @@ def translate(repo):
         "|}.", ""])
 
 
+# ---------------------------------------------------------------------------- iteration audit (determinism)
+
+AUDITED = ["src/cffi/recompiler.py", "src/cffi/cffi_opcode.py"]
+SET_METHODS_OK = {"add", "discard", "remove", "update", "clear", "copy"}
+
+
+def iteration_audit(repo):
+    """Every set-valued expression of the emitter must be used only for membership, mutation, or through
+    sorted(...) — never iterated in hash order (C23_sorted_emission_order is what makes sorted(...) sites
+    order-independent).  One iteration is allowed without sorted(): a set to which at most one distinct
+    constant is ever added (`freelines`).  Returns (sites, problems)."""
+    sites, problems = [], []
+    for rel in AUDITED:
+        tree = py2coq.parse_source(os.path.join(repo, rel))
+        parents = {}
+        for node in ast.walk(tree):
+            for ch in ast.iter_child_nodes(node):
+                parents[ch] = node
+        # names / attributes that hold sets
+        setnames = set()
+        for node in ast.walk(tree):
+            if isinstance(node, ast.Assign) and is_set_expr(node.value, ()):
+                for t in node.targets:
+                    if isinstance(t, ast.Name):
+                        setnames.add(t.id)
+                    elif isinstance(t, ast.Attribute):
+                        setnames.add(t.attr)
+        # constants added to each set (for the singleton exception)
+        added = {}
+        for node in ast.walk(tree):
+            if isinstance(node, ast.Call) and isinstance(node.func, ast.Attribute) and node.func.attr in ("add", "update"):
+                nm = ref_name(node.func.value)
+                if nm in setnames:
+                    arg = node.args[0] if node.args else None
+                    added.setdefault(nm, set()).add(
+                        ("const", arg.value) if node.func.attr == "add" and isinstance(arg, ast.Constant) else ("other", ast.dump(node)))
+        for node in ast.walk(tree):
+            if not is_set_expr(node, setnames):
+                continue
+            if isinstance(node, (ast.Name, ast.Attribute)) and isinstance(getattr(node, "ctx", None), ast.Store):
+                continue
+            par = parents.get(node)
+            where = "%s:%d" % (rel, getattr(node, "lineno", 0))
+            nm = ref_name(node) or "<set expression>"
+            use = classify_use(node, par, parents)
+            if use == "iterated":
+                vals = added.get(nm, {("other", "?")})
+                if all(k == "const" for k, _ in vals) and len(vals) <= 1:
+                    sites.append((where, nm, "iterated: singleton (only %r is ever added)" % (sorted(vals)[0][1][:40] if vals else None)))
+                else:
+                    problems.append("%s: set `%s` is iterated in hash order" % (where, nm))
+            elif use == "escapes":
+                problems.append("%s: set `%s` is used in a way the audit does not know (%s)" % (
+                    where, nm, type(par).__name__))
+            else:
+                sites.append((where, nm, use))
+        for node in ast.walk(tree):
+            if isinstance(node, ast.Call) and isinstance(node.func, ast.Name) and node.func.id == "sorted":
+                sites.append(("%s:%d" % (rel, node.lineno), "sorted(...)", "sorted"))
+    return sites, problems
+
+
+def ref_name(node):
+    if isinstance(node, ast.Name):
+        return node.id
+    if isinstance(node, ast.Attribute):
+        return node.attr
+    return None
+
+
+def is_set_expr(node, setnames):
+    if isinstance(node, (ast.Set, ast.SetComp)):
+        return True
+    if isinstance(node, ast.Call) and isinstance(node.func, ast.Name) and node.func.id in ("set", "frozenset"):
+        return True
+    if isinstance(node, ast.Name) and node.id in setnames:
+        return True
+    if isinstance(node, ast.Attribute) and node.attr in setnames and not isinstance(node.ctx, ast.Store):
+        return True
+    return False
+
+
+def classify_use(node, par, parents):
+    if isinstance(par, ast.Assign) and par.value is node:
+        return "assigned"
+    if isinstance(par, ast.Compare) and node in par.comparators and all(isinstance(o, (ast.In, ast.NotIn)) for o in par.ops):
+        return "membership"
+    if isinstance(par, ast.Attribute) and par.value is node:
+        gp = parents.get(par)
+        if isinstance(gp, ast.Call) and gp.func is par and par.attr in SET_METHODS_OK:
+            return "mutated"
+        return "escapes"
+    if isinstance(par, ast.Call) and node in par.args:
+        if isinstance(par.func, ast.Name) and par.func.id == "sorted":
+            return "sorted"
+        if isinstance(par.func, ast.Name) and par.func.id in ("len", "bool", "set", "frozenset"):
+            return "size/copy"
+        if isinstance(par.func, ast.Attribute) and isinstance(par.func.value, ast.Name) and par.func.value.id == "self":
+            return "passed to a method (parameter of the same name is audited)"
+        return "iterated" if isinstance(par.func, ast.Name) and par.func.id in (
+            "list", "tuple", "enumerate", "iter", "map", "filter", "zip", "sum", "min", "max", "any", "all") else "escapes"
+    if isinstance(par, (ast.For, ast.comprehension)) and par.iter is node:
+        return "iterated"
+    if isinstance(par, (ast.If, ast.While, ast.BoolOp, ast.UnaryOp)):
+        return "truth value"
+    if isinstance(par, ast.arguments) or isinstance(par, ast.arg):
+        return "parameter"
+    return "escapes"
+
+
 def regen(ctx):
     c35.regen_file(ctx, GEN, translate)
+    try:
+        sites, problems = iteration_audit(vlib.REPO)
+    except (SyntaxError, OSError) as e:
+        sites, problems = [], ["cannot audit: %s" % e]
+    ctx.extra["iteration_audit"] = dict(files=AUDITED, sites=["%s %s: %s" % x for x in sites], problems=problems)
+    ctx._c23_audit_problems = problems
 
 
 SKELETON = r"""If(Name('verbose', Load()), [Expr(Call(Name('print', Load()), [BinOp(Constant('generating %s'), Mod(), Tuple([Name('target_file', Load())], Load()))], []))], [])
@@ -267,11 +383,11 @@ def gen_write_case(rng, mode=None, old=None, cr=False):
 
 def generate(ctx, big=False):
     rng = ctx.rng
-    cases = [gen_emit_case(rng) for _ in range(10 if not big else 80)]
+    cases = [gen_emit_case(rng) for _ in range(10 if not big else 50)]
     fixed = [("py", "absent"), ("py", "same"), ("py", "different"), ("c", "same"), ("c", "different"), ("py", "longer"),
              ("py", "prefix"), ("c", "absent"), ("py", "crlf")]
     cases += [gen_write_case(rng, m, o) for m, o in fixed]
-    cases += [gen_write_case(rng) for _ in range(3 if not big else 40)]
+    cases += [gen_write_case(rng) for _ in range(3 if not big else 24)]
     cases += [gen_write_case(rng, cr=True) for _ in range(1 if not big else 4)]
     return cases
 
@@ -449,9 +565,15 @@ def run(ctx):
         "rename(2) replaces the destination atomically; the old content is decodable; crash = process death at an "
         "I/O call boundary (no torn writes inside one write(2) to the temporary file matter for the target)",
         "determinism is established by sampling (partial), not by proof"]
+    audit = getattr(ctx, "_c23_audit_problems", [])
     evaluate(ctx, generate(ctx))
-    if not [v for v in ctx.violations if v[2] is None] and (ctx.thorough or ctx.tier_search == "thorough" or ctx.mismatches):
+    if not [v for v in ctx.violations if v[2] is None] and (
+            ctx.thorough or ctx.tier_search == "thorough" or ctx.mismatches or audit):
         evaluate(ctx, generate(ctx, big=True))
+    if audit and not ctx.violations:
+        # the emitter iterates a set in hash order but no differing output was found
+        ctx.obligation_broken("C23 iteration audit (hypothesis of C23_sorted_emission_order: hash-ordered containers "
+                              "are only iterated through sorted)", "\n".join(audit))
 
 
 MANIFEST = dict(
